@@ -315,43 +315,86 @@ def find_cell(st, cid, o):
 
 # ---------------------------------------------------------------- replay: histories through the native crate vs a python map model
 def replay_ce(ce):
-    """The step counterexample names a pre-state shape and an operation; natively we run short histories that establish that pre-state
-    through the public API, apply the operation and compare with a python dict model (type-safe map)."""
+    """The step counterexample names a pre-state shape and an operation; natively we establish every pre-state type through the public API,
+    apply every assignment operator with a right-hand side of every type and judge the outcome with an independent concrete reference
+    (C03's operator reference followed by the type-safe map assignment)."""
     import struct
     vals = {'I': ('Int', 5), 'F': ('Float', struct.unpack('<Q', struct.pack('<d', 2.5))[0]), 'B': ('Boolean', True), 'S1': ('String', 'a'), 'T1': ('Tuple', [('Int', 1)]), 'E': ('Empty',)}
-    lits = {'I': '7', 'F': '1.5', 'B': 'false', 'S1': '"b"', 'T1': '(2, 3)', 'E': '()'}
+    vals2 = dict(vals, B2=('Boolean', False))
+    lits = {'I': ('7', ('Int', 7)), 'F': ('1.5', ('Float', struct.unpack('<Q', struct.pack('<d', 1.5))[0])), 'B': ('false', ('Boolean', False)), 'Bt': ('true', ('Boolean', True)),
+            'S1': ('"b"', ('String', 'b')), 'T1': ('(2, 3)', ('Tuple', [('Int', 2), ('Int', 3)])), 'E': ('()', ('Empty',))}
+    ops = {'=': 'Assign', '+=': 'AddAssign', '-=': 'SubAssign', '*=': 'MulAssign', '/=': 'DivAssign', '%=': 'ModAssign', '^=': 'ExpAssign', '&&=': 'AndAssign', '||=': 'OrAssign'}
     details = []
     bad = False
-    progs = []
-    for t0_ in TYPES:
-        for t1_ in TYPES:
-            for op in ['=', '+=', '-=', '*=', '/=', '%=', '^=', '&&=', '||=']:
-                progs.append((t0_, 'x %s %s' % (op, lits[t1_]), t1_, op))
-    for prof in ('dev',):
+    progs = [(t0_, sym, t1_) for t0_ in vals2 for sym in ops for t1_ in lits]
+    for prof in ('dev', 'release'):
         text = ''
-        for i, (t0_, prog, t1_, op) in enumerate(progs):
-            text += replay.case_text('p%d' % i, 'eval_with_context_mut', prog, vars=[('x', vals[t0_]), ('y', ('Int', 1))])
+        for i, (t0_, sym, t1_) in enumerate(progs):
+            text += replay.case_text('p%d' % i, 'eval_with_context_mut', 'x %s %s' % (sym, lits[t1_][0]), vars=[('x', vals2[t0_]), ('y', ('Int', 1))])
+        text += replay.case_text('fresh', 'eval_with_context_mut', 'z = 4; z', vars=[('y', ('Int', 1))])
         out = replay.run_cases(text, prof)
-        for i, (t0_, prog, t1_, op) in enumerate(progs):
+        for i, (t0_, sym, t1_) in enumerate(progs):
             o = out['p%d' % i]
             r = o.get('result')
             after = o['vars'].get('x')
-            if op == '=':
-                same = t0_[0] == t1_[0]
-                okk = (r and r[0] == 'Ok' and same and after[0] == vals[t1_][0]) or (r and r[0] == 'Err' and not same and after == vals[t0_])
+            cur, rhs = vals2[t0_], lits[t1_][1]
+            if sym == '=':
+                newv, errc = rhs, None
             else:
-                # x op= e == x = x op e : compare with evaluating `x op e` read-only, then assigning
-                o2 = replay.run_cases(replay.case_text('q', 'eval_with_context_mut', 'x %s %s' % (op[:-1], lits[t1_]), vars=[('x', vals[t0_])]), prof)['q']
-                r2 = o2.get('result')
-                if r2 and r2[0] == 'Ok':
-                    same = r2[1][0] == vals[t0_][0]
-                    okk = (same and r and r[0] == 'Ok' and after == r2[1]) or (not same and r and r[0] == 'Err' and after == vals[t0_])
+                want = c03.concrete_reference(OPASSIGN[ops[sym]], c03.tuple_fix(cur), c03.tuple_fix(rhs))
+                if want is None:
+                    continue
+                if want[0] == 'val':
+                    newv, errc = spec_to_py(want[1]), None
                 else:
-                    okk = bool(r and r[0] == 'Err' and after == vals[t0_] and r2 and r[1] == r2[1])
+                    newv, errc = None, want[0]
+            if errc is not None:
+                okk = bool(r and r[0] == 'Err' and after == cur and
+                           ((errc == 'arith' and r[1] == c03.ARITH_ERR.get(OPASSIGN[ops[sym]])) or (errc == 'type' and r[1] in c03.TYPE_ERRS)))
+            elif newv is None:
+                continue      # reference value not concrete (uninterpreted libm): not judged
+            elif newv[0] == cur[0]:
+                okk = bool(r == ('Ok', ('Empty',)) and same_py(after, newv))
+            else:
+                okk = bool(r and r[0] == 'Err' and r[1] == TYPE_ERR[{'Int': 'I', 'Float': 'F', 'Boolean': 'B', 'String': 'S', 'Tuple': 'T', 'Empty': 'E'}[cur[0]]] and after == cur)
             if not okk:
                 bad = True
-                details.append('%s: x:%s ; `%s` -> %s, x afterwards %s' % (prof, vals[t0_], prog, r, after))
+                details.append('%s: x = %s ; `x %s %s` -> %s, x afterwards %s' % (prof, cur, sym, lits[t1_][0], r, after))
+        f = out['fresh']
+        if f.get('result') != ('Ok', ('Int', 4)) or f['vars'].get('z') != ('Int', 4) or f['vars'].get('y') != ('Int', 1):
+            bad = True
+            details.append('%s: fresh assignment `z = 4; z` -> %s, context %s' % (prof, f.get('result'), f['vars']))
     return ('reproduced' if bad else 'not_reproduced'), details[:6] or ['native histories agree with the map model on the probe programs']
+
+
+def spec_to_py(s):
+    from harness import f64_bits
+    k = s[0]
+    try:
+        if k == 'I':
+            return ('Int', z3.simplify(s[1]).as_signed_long())
+        if k == 'F':
+            b = f64_bits(s[1])
+            return ('Float', b) if b is not None else None
+        if k == 'B':
+            t = z3.simplify(s[1])
+            return ('Boolean', z3.is_true(t)) if (z3.is_true(t) or z3.is_false(t)) else None
+        if k == 'S':
+            return ('String', ''.join(chr(z3.simplify(c).as_long()) for c in s[1]))
+        if k == 'T':
+            items = [spec_to_py(x) for x in s[1]]
+            return None if any(i is None for i in items) else ('Tuple', items)
+        return ('Empty',)
+    except Exception:
+        return None
+
+
+def same_py(a, b):
+    if a is None or b is None:
+        return False
+    if a[0] == 'Float' and b[0] == 'Float':
+        return a[1] == b[1]
+    return a == b
 
 
 def main():
